@@ -572,8 +572,8 @@ class Interp:
     # -------------------------------------------------------------- statements
     def run_function(self, fn: Fn, args: List[Value], kwargs: Dict[str, Value], node=None) -> Value:
         fi = fn.fi
-        if self.depth > self.opts.get("max_depth", 6):
-            raise Undecided(f"inlining deeper than {self.opts.get('max_depth', 6)} at {fi.qualname}")
+        if self.depth > self.opts.get("max_depth", 9):
+            raise Undecided(f"inlining deeper than {self.opts.get('max_depth', 9)} at {fi.qualname}")
         env = {}
         a = fi.node.args
         pos = [x.arg for x in a.posonlyargs + a.args]
@@ -960,7 +960,7 @@ class Interp:
             if setter is not None:
                 pol = self.opts.get("inline", lambda fi, node: False)
                 self.emit("store", st, target=Term("attr", base, attr), value=v, base=base, attr=attr, setter=setter)
-                if pol(setter, st):
+                if pol(setter, st) or self.is_private_helper(setter):
                     self.run_function(Fn(setter, base), [v], {}, st)
                 elif not isinstance(base, Obj):
                     self.invalidate_attrs(base, modset(self.p, setter))
@@ -1105,7 +1105,7 @@ class Interp:
             g = ci.find_getter(attr)
             if g is not None:
                 pol = self.opts.get("inline", lambda fi, node: False)
-                if pol(g, node):
+                if pol(g, node) or self.is_private_helper(g):
                     return self.run_function(Fn(g, base), [], {}, node)
                 t = Term("attr", base, attr, hint=self.return_hint(g))
                 self.emit("getprop", node, base=base, attr=attr, getter=g, term=t)
@@ -1730,7 +1730,7 @@ class Interp:
         if isinstance(callee, Fn):
             fi = callee.fi
             pol = self.opts.get("inline", lambda fi, node: False)
-            do_inline = pol(fi, node) and not starkw and not any(isinstance(a, Term) and a.op == "star" for a in args)
+            do_inline = (pol(fi, node) or self.is_private_helper(fi)) and not starkw and not any(isinstance(a, Term) and a.op == "star" for a in args)
             if fi.is_async and not awaited:
                 do_inline = False
             t = Term("call", callee, tuple(args), kwt, hint=self.return_hint(fi), node=node)
@@ -1773,6 +1773,22 @@ class Interp:
         ev = self.emit("call", node, term=t, callee=callee, args=args, kwargs=kwargs, resolved=None, foreign=True, inlined=False, awaited=awaited)
         self.maybe_raise(ev)
         return t
+
+    def is_private_helper(self, fi) -> bool:
+        """Private helpers of the repository (single leading underscore: methods, module functions, closures) are part of
+        whatever function calls them: they are always inlined, so that extracting or inlining a helper does not change
+        what a rule sees.  A rule that needs to observe one as a call names it in opts['keep_calls']."""
+        if self.opts.get("private_helpers") is False:
+            return False
+        n = fi.name
+        if not (n.startswith("_") and not n.startswith("__")):
+            return False
+        if not fi.module.name.startswith(("indi.", "indilint_synthetic")):
+            return False
+        keep = self.opts.get("keep_calls")
+        if keep and (n in keep or fi in keep):
+            return False
+        return True
 
     def fold_re(self, callee, args, kwargs):
         """Constant folding of re.match/fullmatch/search/compile when pattern (and subject) are literals.
